@@ -68,7 +68,7 @@ func Anchors(p *core.Program) func(*types.Func) bool {
 		for f := range roles.PickHelpers {
 			add(f)
 		}
-		add(alphabetBuilder(p), capitalisationGate(p), alternationPredicate(p), p.Func("entropySimple"))
+		add(alphabetBuilder(p), capitalisationGate(p), alternationPredicate(p), entropySimpleFunc(p))
 		if m, _ := resolveBuilder(p); m != nil {
 			add(m.setOf, m.strOf)
 		}
